@@ -885,7 +885,7 @@ Ltac peel :=
   | |- eff _ _ _ (fst (fst (conn_tls_start _))) => eapply effA_trans; [|toA conn_tls_start_eff]
   | |- eff _ _ ?s (?f ?v ?t) =>
       apply (effA_trans s t);
-      [|let vv := fresh "vv" in let tt := fresh "tt" in set (vv := v); set (tt := t); clearbody vv tt; frameS]
+      [|let tt := fresh "tt" in set (tt := t); clearbody tt; frameS]
   end.
 Ltac peels := repeat peel.
 
@@ -961,36 +961,36 @@ Ltac known_good :=
         | apply features_sasl_good | apply conn_disconnect_good].
 Ltac symR :=
   lazymatch goal with
-  | |- goodR ?s (ret _) => apply goodR_ret; peels
-  | |- goodR ?s (if ?b then _ else _) => destruct b eqn:?
-  | |- goodR ?s (let '(x, o) := ?r in @?B x o) => apply (goodR_bind2 s r B); [|intros ? ? ? ?]
-  | |- goodR ?s (match ?x with _ => _ end) => destruct x eqn:?
   | |- goodR ?s (let x := ?v in @?B x) =>
       let ty := type of v in
       lazymatch ty with
       | state => apply (goodR_let_st s v B); [peels|intros ? ?; cbv beta]
       | _ => change (goodR s (B v)); cbv beta
       end
+  | |- goodR ?s (ret _) => apply goodR_ret; peels
+  | |- goodR ?s (if ?b then _ else _) => destruct b eqn:?
+  | |- goodR ?s (let '(x, o) := ?r in @?B x o) => apply (goodR_bind2 s r B); [|intros ? ? ? ?]
+  | |- goodR ?s (match ?x with _ => _ end) => destruct x eqn:?
   | |- goodR ?s (_, _) => split; cbn [fst snd]; [peels|outsq]
   | |- goodR ?s _ => eapply goodR_pre; [|known_good]; peels
   end.
 Ltac symT :=
   lazymatch goal with
-  | |- goodT ?s (if ?b then _ else _) => destruct b eqn:?
-  | |- goodT ?s (let '(x, o) := ?r in @?B x o) => apply (goodT_bind s r B); [repeat symR|intros ? ? ? ?]
-  | |- goodT ?s (match ?x with _ => _ end) => destruct x eqn:?
   | |- goodT ?s (let x := ?v in @?B x) =>
       let ty := type of v in
       lazymatch ty with
       | state => apply (goodT_let_st s v B); [peels|intros ? ?; cbv beta]
       | _ => change (goodT s (B v)); cbv beta
       end
+  | |- goodT ?s (if ?b then _ else _) => destruct b eqn:?
+  | |- goodT ?s (let '(x, o) := ?r in @?B x o) => apply (goodT_bind s r B); [repeat symR|intros ? ? ? ?]
+  | |- goodT ?s (match ?x with _ => _ end) => destruct x eqn:?
   | |- goodT ?s (_, _, _) => split; cbn [fst snd]; [peels|outsq]
   end.
 
 Lemma call_handler_good k now e s : goodT s (call_handler k now e s).
 Proof.
-  destruct k; unfold call_handler.
+  destruct k; cbv beta iota delta [call_handler].
   4: { destruct (e_name e); try (repeat symT; fail).
     pose proof (conn_tls_start_spec s) as Sp. pose proof (conn_tls_start_eff pnone s) as Ef.
     destruct (conn_tls_start s) as [[s1 o] ok]. cbn [fst snd] in *.
